@@ -26,7 +26,8 @@ MANIFEST = dict(
     text='Decides that the two ends of a channel derive complementary keys for every ordering of their ids (ids are only compared, so three cases are complete), that each end decrypts exactly '
          'what the other encrypts, that packets are key-id | sha256(plaintext) | ciphertext with the key id the peer expects, that the signing helpers return exactly the 64-byte signature '
          'which verify_sign accepts only with the matching key, message and length, that key derivation from a mnemonic reaches no randomness or time source, and that mnemonic_new only '
-         'returns what mnemonic_is_valid accepts.',
+         'returns what mnemonic_is_valid accepts.'
+         ' Key derivation gives, after any history of other derivations in the same process (other salts, other mnemonics), what it gives in a fresh process; ids are opaque symbols on every comparison path (nothing the channel keeps is computed from an id).',
     note='trusted: interpreter, rope model, the algebraic models of nacl / x25519 / Cryptodome / hashlib (these libraries are not analysed).',
     design_ref='DESIGN.md section 4 C20')
 
